@@ -65,6 +65,8 @@ META_POOL = [
     ("online_contour", "no absdiff", [True, False]),
     ("online_contour", "bin area min", [10, 55]),
     ("fluorescence", "laser count", [1, 2]),
+    # documented: only *added* by the writer if not present
+    ("fluorescence", "channel count", [2, 3]),
     ("fluorescence", "sample rate", [312500, 1000000]),
     ("user", "operator", ["anna", "björn"]),
     ("user", "value", [1.5, -2.0]),
@@ -76,7 +78,7 @@ META_TYPES = {"sample": str, "run index": int, "date": str, "time": str,
               "flash device": str, "roi position x": int, "channel width": float,
               "flow rate": float, "medium": str, "chip region": str,
               "roi size x": int, "roi size y": int,
-              "no absdiff": bool, "bin area min": int, "laser count": int,
+              "no absdiff": bool, "bin area min": int, "laser count": int, "channel count": int,
               "sample rate": int}
 
 LINE = st.text(alphabet=st.characters(blacklist_categories=("Cs", "Cc")),
